@@ -613,6 +613,10 @@ def run(ctx):
         cp_stats = codecpairs.run(ctx, env, [f for f in formats.writable_formats(ctx) if f.major != 0x16], findings)
         ctx.count(cp_stats.get("comparisons", 0))
         ctx.notes["B_codec_pairs"] = cp_stats
+        from .. import foreignworld     # a FOREIGN file opened r / rw next to a writer of the same container, merged vs solo (round 8)
+        fw_stats = foreignworld.run(ctx, env, [f for f in formats.writable_formats(ctx) if f.major != 0x16], findings)
+        ctx.count(fw_stats.get("comparisons", 0))
+        ctx.notes["B_foreign_files"] = fw_stats
         seen = set()
         n_rep = 0
         for f in findings:
